@@ -45,18 +45,29 @@ Example inout_row_alignment_instance :
   inout_rank nat inputs 3 = 1 /\ noncomptime_rank nat inputs 3 = 2.
 Proof. vm_compute. auto. Qed.
 
-(* writeback_kth.  In the model of _update_inout_ports, the k-th extra returned wire is
-   assigned to the k-th borrowed argument's place (arguments that are not places consume
-   their wire), in input order; the number of wires must be exactly the number of borrowed
-   inputs. *)
+(* writeback_kth.  About the loop REGENERATED from ExprCompiler._update_inout_ports
+   (GenFuncTy.gen_update_inout_ports; primitive effects abstract): the k-th extra returned wire
+   is assigned to the k-th borrowed argument's place -- leaf assignment, then the recorded
+   __setitem__ write-back when the place goes through a subscript (assign_of); borrowed
+   arguments that are NOT places (temporaries) consume their wire; the order is input order;
+   the number of wires must be exactly the number of borrowed inputs. *)
 Theorem writeback_kth :
-  forall (T P W St : Type) (assign : P -> W -> St -> St) inputs args ports s s',
-    update_inout_ports T P W St assign inputs args ports s = Some s' ->
+  forall (T P Sub W St : Type) (assign_leaf : P -> W -> St -> St) (contains_sub : P -> option Sub)
+         (set_value_var visit_setitem : Sub -> St -> St) inputs args ports s s',
+    gen_update_inout_ports T P Sub W St assign_leaf contains_sub set_value_var visit_setitem inputs args ports s = Some s' ->
     length inputs = length args /\
     length ports = length (filter (is_inout T) inputs) /\
-    s' = writeback_spec T P W St assign inputs args ports s.
-Proof. exact update_inout_ports_spec. Qed.
+    s' = writeback_spec T P W St (assign_of P Sub W St assign_leaf contains_sub set_value_var visit_setitem) inputs args ports s.
+Proof. intros until s'. rewrite gen_update_is_model. apply update_inout_ports_spec. Qed.
 Print Assumptions writeback_kth.
+
+(* a temporary passed for the first of two same-typed borrowed inputs consumes port 0: the
+   place passed second receives port 1 *)
+Example writeback_kth_temporary_first :
+  let b := mkInput 0 (mkFlags true false false) in
+  gen_update_inout_ports nat nat nat nat (list (nat * nat)) (fun p w s => (p, w) :: s) (fun _ => None)
+     (fun _ s => s) (fun _ s => s) [b; b] [AExpr; APlace 7] [100; 101] [] = Some [(7, 101)].
+Proof. vm_compute. reflexivity. Qed.
 
 Example writeback_kth_instance :
   let inputs := [mkInput 0 (mkFlags true false false); mkInput 0 (mkFlags false false false);
@@ -68,20 +79,22 @@ Proof. vm_compute. reflexivity. Qed.
 (* borrow_roundtrip_alignment.  Callee: exit row = return vars ++ borrowed parameter names
    (insert_return_vars / inout_var_names as generated); it outputs the wires it holds for
    these variables at the exit.  Caller: splits the call outputs at |row(output)|
-   (generated split_global_call) and runs the model of _update_inout_ports.  Then every
+   (generated split_global_call) and runs the regenerated loop of _update_inout_ports.  Then every
    borrowed place argument is assigned the callee's final wire of the parameter *at the
    same position*; nothing else is assigned. *)
 Theorem borrow_roundtrip_alignment :
-  forall (T P W St N : Type) (assign : P -> W -> St -> St) (type_to_row : T -> list T) (final : N -> W)
+  forall (T P Sub W St N : Type) (assign_leaf : P -> W -> St -> St) (contains_sub : P -> option Sub)
+         (set_value_var visit_setitem : Sub -> St -> St) (type_to_row : T -> list T) (final : N -> W)
          inputs output args names inames (rv : list N) reg io s s',
     length names = length inputs ->
     length rv = n_return_vars T type_to_row output ->
     inout_names T N inputs names = Some inames ->
     split_global_call T W type_to_row output (map final (exit_row N rv inames)) = (reg, io) ->
-    update_inout_ports T P W St assign inputs args io s = Some s' ->
+    gen_update_inout_ports T P Sub W St assign_leaf contains_sub set_value_var visit_setitem inputs args io s = Some s' ->
     reg = map final rv /\
-    s' = fold_left (rt_step T P W St N assign final inputs args names) (seq 0 (length inputs)) s.
-Proof. exact roundtrip. Qed.
+    s' = fold_left (rt_step T P W St N (assign_of P Sub W St assign_leaf contains_sub set_value_var visit_setitem)
+                            final inputs args names) (seq 0 (length inputs)) s.
+Proof. intros until s'. rewrite gen_update_is_model. apply roundtrip. Qed.
 Print Assumptions borrow_roundtrip_alignment.
 
 (* all four sites that split a call's outputs into regular and borrowed returns use the same
@@ -149,7 +162,7 @@ Example dfc_repack_after_leaf_writeback :
   let Q := TAtom true in
   let te := fun x => match x with 0 => TProd [Q; Q] | _ => TAtom false end in
   let b := mkInput Q (mkFlags true false false) in
-  run_function te [0]
+  run_function te (fun _ => IConst 0) [0]
     [mkCall 11 [mkInput (TProd [Q; Q]) (mkFlags false true false)] [CPlace (PVar 0)] 0 None;
      mkCall 12 [] [] 1 (Some (PChild (PVar 0) 0));
      mkCall 12 [] [] 1 (Some (PChild (PVar 0) 1));
